@@ -135,6 +135,10 @@ def axis_args(rng, kind, dim, exhaustive, unsorted=False, multi=True):
         if exhaustive:
             out.append([a - dim for a in c])
             out.append(list(c))
+            if len(c) > 1:
+                # axis lists are sets: order must not matter (deterministic unsorted variants, also in the quick tier)
+                out.append(list(reversed(c)))
+                out.append([c[-1] - dim] + list(c[:-1]))
     if exhaustive:
         uniq = []
         for v in out:
